@@ -243,6 +243,10 @@ func vxBarrier(k int) {
 	panic("vxBarrier: environment-model function, not available in native replay")
 }
 
+func vxTempPrefix() string {
+	panic("vxTempPrefix: environment-model function, not available in native replay")
+}
+
 func vxFieldChan(obj interface{}, idx int) interface{} {
 	panic("vxFieldChan: environment-model function, not available in native replay")
 }
